@@ -73,8 +73,13 @@ func WorkerMain(fn ScenarioFunc) {
 
 // RunSharded starts the workers for one scenario and merges their results.
 func RunSharded(scenario string, pb, db int) (*Result, error) {
-	n := runtime.NumCPU()
-	if pb == 0 && db == 0 {
+	return RunShardedN(scenario, pb, db, runtime.NumCPU())
+}
+
+// RunShardedN is RunSharded with a stated number of worker processes (small searches are
+// better run several at a time with few workers each).
+func RunShardedN(scenario string, pb, db, n int) (*Result, error) {
+	if n < 1 || (pb == 0 && db == 0) {
 		n = 1
 	}
 	results := make([]*Result, n)
